@@ -294,3 +294,69 @@ C.assume('printers (bundled and user) restore the visited set on normal and exce
 C.assume('id() is injective on simultaneously live objects; the text of warnings and of the marker is not modelled beyond '
          'which function produced it')
 C.assume('asynchronous exceptions (KeyboardInterrupt inside the finally block, MemoryError) are not modelled')
+
+
+# ---- the visited-set primitives themselves (the hooks above are their contracts; here they are verified from the source) ----
+def _set_target(I, node):
+    """self.visited.<method>(...): the receiver is the field `visited` of a context variable"""
+    tgt = node.func.value
+    if not (isinstance(tgt, ast.Attribute) and tgt.attr == 'visited' and isinstance(tgt.value, ast.Name)):
+        raise OutsideSubset('set method on %s' % ast.unparse(tgt))
+    return tgt.value.id
+
+
+def _set_add(I, obj, args, kwargs, node):
+    name = _set_target(I, node)
+    I.note_mutation(name)
+    I.env[name] = U.mk('Ctx', z3.SetAdd(obj, I.coerce(args[0], 'Int')))
+    return None
+
+
+def _set_remove(I, obj, args, kwargs, node):
+    name = _set_target(I, node)
+    x = I.coerce(args[0], 'Int')
+    if not I.choose_bool(z3.IsMember(x, obj), '@present'):
+        raise SymRaise('KeyError', 'set.remove of an absent element')
+    I.note_mutation(name)
+    I.env[name] = U.mk('Ctx', z3.SetDel(obj, x))
+    return None
+
+
+def _set_discard(I, obj, args, kwargs, node):
+    name = _set_target(I, node)
+    I.note_mutation(name)
+    I.env[name] = U.mk('Ctx', z3.SetDel(obj, I.coerce(args[0], 'Int')))
+    return None
+
+
+def _set_clear(I, obj, args, kwargs, node):
+    name = _set_target(I, node)
+    I.note_mutation(name)
+    I.env[name] = U.mk('Ctx', z3.EmptySet(z3.IntSort()))
+    return None
+
+
+U.method_hooks.update({('IntSet', 'add'): _set_add, ('IntSet', 'remove'): _set_remove, ('IntSet', 'discard'): _set_discard,
+                       ('IntSet', 'clear'): _set_clear})
+_prev_id = _interp.BUILTINS.get('id')
+_interp.BUILTINS['id'] = lambda I, a, k, n: (I.call_spec(C.specs['vid'], [a[0]], {}) if (I.U is U and is_z3(a[0]) and I.sort_of(a[0]) == 'Val')
+                                             else (_prev_id(I, a, k, n) if _prev_id else (_ for _ in ()).throw(OutsideSubset('id()'))))
+
+
+def _contains_set(I, container, x):
+    return z3.IsMember(I.coerce(x, 'Int'), container)
+
+
+U.contains_hooks = dict(getattr(U, 'contains_hooks', {}))
+U.contains_hooks['IntSet'] = _contains_set
+_interp.BUILTINS['set_add_'] = lambda I, a, k, n: z3.SetAdd(a[0], I.coerce(a[1], 'Int'))
+_interp.BUILTINS['set_del_'] = lambda I, a, k, n: z3.SetDel(a[0], I.coerce(a[1], 'Int'))
+
+C.contract(PP, 'PrettyContext.start_visit', params={'self': 'Ctx', 'value': 'Val'}, modifies=['self'],
+           ensures=[('adds-exactly-the-id', 'self.visited == set_add_(old(self).visited, vid(value))')], serves=['C13'])
+C.contract(PP, 'PrettyContext.end_visit', params={'self': 'Ctx', 'value': 'Val'}, modifies=['self'],
+           raises={'KeyError': 'not member_(vid(value), self.visited)'},
+           ensures=[('removes-exactly-the-id', 'self.visited == set_del_(old(self).visited, vid(value))'),
+                    ('was-present', 'member_(vid(value), old(self).visited)')], serves=['C13'])
+C.contract(PP, 'PrettyContext.is_visited', params={'self': 'Ctx', 'value': 'Val'}, returns='Bool',
+           ensures=[('membership', 'result == member_(vid(value), self.visited)')], serves=['C13'])
